@@ -94,6 +94,16 @@ Theorem C17_read_never_panics :
 Proof. exact read_never_panics. Qed.
 Print Assumptions C17_read_never_panics.
 
+(* ... and in EMACS MODE (the default) with ANY history: the incremental-search sub-loop included -- every key of
+   the search, hits replacing the line, abort restoring the typed line and cutting the undo stack back to its mark
+   (which is then exactly the stack from before the search). This is the configuration of `DefaultEditor` (no helper)
+   with the default edit mode. In vi mode the same statement does not hold of the invariant used (known finding K9). *)
+Theorem C17_read_never_panics_emacs :
+  forall (U : UData) (cfg : config), c_has_helper cfg = false -> is_emacs cfg = true ->
+  forall history prompt initial kr inp, kr_inv kr -> fst (read_line U cfg prompt initial history kr inp) <> OPanic.
+Proof. intros U cfg Hh He history prompt initial kr inp. exact (read_never_panics_emacs U cfg Hh He history prompt initial kr inp). Qed.
+Print Assumptions C17_read_never_panics_emacs.
+
 (* the state every read starts from satisfies J *)
 Theorem C17_initial_state_ok :
   forall (U : UData) (cfg : config) prompt history kr inp,
